@@ -1,0 +1,15 @@
+//go:build verif
+// +build verif
+
+package onet
+
+import "go.dedis.ch/onet/v3/network"
+
+// Accessor for the correspondence harness of property C04 (build tag "verif"
+// only; nothing here is called by the package itself).
+
+// VerifC04HasFlag is hasFlag on an instance whose flag table is the given one.
+func VerifC04HasFlag(flags map[network.MessageTypeID]uint32, mt network.MessageTypeID, f uint32) bool {
+	n := &TreeNodeInstance{messageTypeFlags: flags}
+	return n.hasFlag(mt, f)
+}
